@@ -12,4 +12,4 @@ _orm.define(globals(), "C47", ("C47",), "autoflush",
             "collections with the FK / association rows.  Sampled.",
             "queries are whole-entity selects, get() and relationship lazy loads; autoflush=False histories belong to C30",
             weights={"requery": 8, "get": 5, "lazy": 6, "set": 5, "set_parent": 4, "delete": 4, "mk": 5, "mk_child": 5, "flush": 1, "tag_add": 3,
-                     "bs_remove": 3, "k_rename": 2, "merge": 3, "bulk": 3, "set_k": 2}, cfg_fn=_cfg)
+                     "bs_remove": 3, "k_rename": 2, "merge": 3, "bulk": 3, "set_k": 2, "stream": 4}, cfg_fn=_cfg)
